@@ -196,6 +196,11 @@ func (r *c08Rules) checkResult(w *W, tname, mname string, res MRes, ctx string, 
 				bad("not in " + what)
 			}
 		}
+		if tname == "LunarYear" && strings.Contains(s, "〇") {
+			// the almanac readings of a lunar year count days from New Year's Day to the first day with a given stem or
+			// branch (or derive from that): the numeral is one of 一..十二, never zero
+			bad("a zero numeral in a reading that counts from one")
+		}
 		switch {
 		case strings.HasSuffix(mname, "InGanZhi") || strings.HasSuffix(mname, "InGanZhiExact") || strings.HasSuffix(mname, "InGanZhiExact2") || strings.HasSuffix(mname, "InGanZhiByLiChun") || mname == "GetGanZhi" ||
 			(tname == "EightChar" && (mname == "GetYear" || mname == "GetMonth" || mname == "GetDay" || mname == "GetTime" || mname == "GetTaiYuan" || mname == "GetTaiXi" || mname == "GetMingGong" || mname == "GetShenGong")):
